@@ -20,6 +20,8 @@ import (
 	"path/filepath"
 	"sort"
 	"strings"
+	"sync/atomic"
+	"time"
 )
 
 // Op is one operation record (from a TLC path, a generator, or a witness event).
@@ -54,7 +56,13 @@ type Ctx struct {
 	Counters map[string]int
 	Samples  []any
 	Extra    map[string]any
+	lastHist *Hist        // the history most recently created or written to
+	beat     atomic.Int64 // unix nanoseconds of the last sign of progress
+	finish   func()       // flushes and closes the outputs
 }
+
+// Beat tells the watchdog that the harness is making progress without emitting events.
+func (c *Ctx) Beat() { c.beat.Store(time.Now().UnixNano()) }
 
 // Thorough reports whether the thorough tier was requested.
 func (c *Ctx) Thorough() bool { return c.Tier == "thorough" }
@@ -100,7 +108,39 @@ func (c *Ctx) NewHist(gen string) *Hist {
 		h.w = c.shards[(h.ID-1)%len(c.shards)]
 	}
 	c.Counters["hist:"+gen]++
+	c.lastHist = h
+	c.beat.Store(time.Now().UnixNano())
 	return h
+}
+
+// watchdog: a call into the code under test that does not return (a cycle in a linked
+// structure, a loop that no longer terminates) would hang the harness for ever.  After
+// `limit` without a new event or history, the current history gets a final event whose
+// panic field says so, the outputs are closed, and the process ends.  The specifications
+// never allow a non-empty panic field, so the history is rejected; the confirming re-run
+// hangs at the same call and reports the same.
+func (c *Ctx) watchdog(limit time.Duration) {
+	c.beat.Store(time.Now().UnixNano())
+	go func() {
+		for {
+			time.Sleep(limit / 8)
+			if time.Since(time.Unix(0, c.beat.Load())) < limit {
+				continue
+			}
+			if h := c.lastHist; h != nil {
+				ev := Ev{"op": "hang", "h": h.ID, "panic": fmt.Sprintf("no progress for %v after event %d of this history: the call does not return", limit, h.n)}
+				b, _ := json.Marshal(ev)
+				h.w.Write(b)
+				h.w.WriteByte('\n')
+				c.nEvents++
+				c.Counters["hang"]++
+			}
+			if c.finish != nil {
+				c.finish()
+			}
+			os.Exit(0)
+		}
+	}()
 }
 
 // Emit logs one event of h.
@@ -117,6 +157,8 @@ func (h *Hist) Emit(ev Ev) {
 	h.w.WriteByte('\n')
 	h.n++
 	h.c.nEvents++
+	h.c.lastHist = h
+	h.c.beat.Store(time.Now().UnixNano())
 	if len(h.c.Samples) < 3 && h.n <= 6 {
 		var cp any
 		json.Unmarshal(b, &cp)
@@ -256,6 +298,10 @@ func readNDJSON[T any](path string) []T {
 	return out
 }
 
+// hangLimit: the longest single step of any driver takes a few seconds (a 66 000-element heap,
+// a 4 000-level tree); C09 and C10 have their own, finer watchdogs.
+const hangLimit = 90 * time.Second
+
 func main() {
 	if len(os.Args) < 3 {
 		die("usage: mdsverif run|confirm <PROP> [flags]")
@@ -311,18 +357,22 @@ func main() {
 				}
 			}
 		}
+		c.finish = func() {
+			for i, w := range c.shards {
+				w.Flush()
+				c.files[i].Close()
+			}
+			meta := map[string]any{
+				"property": prop, "seed": *seed, "tier": *tier,
+				"histories": c.nextH, "events": c.nEvents, "paths": len(c.RawPaths),
+				"counters": c.Counters, "samples": c.Samples, "extra": c.Extra,
+			}
+			b, _ := json.MarshalIndent(meta, "", " ")
+			os.WriteFile(filepath.Join(*out, "meta.json"), b, 0o644)
+		}
+		c.watchdog(hangLimit)
 		p.Run(c)
-		for i, w := range c.shards {
-			w.Flush()
-			c.files[i].Close()
-		}
-		meta := map[string]any{
-			"property": prop, "seed": *seed, "tier": *tier,
-			"histories": c.nextH, "events": c.nEvents, "paths": len(c.RawPaths),
-			"counters": c.Counters, "samples": c.Samples, "extra": c.Extra,
-		}
-		b, _ := json.MarshalIndent(meta, "", " ")
-		os.WriteFile(filepath.Join(*out, "meta.json"), b, 0o644)
+		c.finish()
 	case "confirm":
 		if *witness == "" || *out == "" {
 			die("-witness and -out required")
@@ -337,9 +387,10 @@ func main() {
 		if len(ops) > 0 && has(ops[0], "h") {
 			h.ID = geti(ops[0], "h")
 		}
+		c.finish = func() { c.single.Flush(); f.Close() }
+		c.watchdog(hangLimit)
 		p.Replay(c, h, ops)
-		c.single.Flush()
-		f.Close()
+		c.finish()
 	default:
 		die("unknown mode %q", mode)
 	}
